@@ -509,3 +509,86 @@ Section LightConeReindexed.
     - apply (sandwich_wf K cj HK); auto. apply (embed_wf K).
   Qed.
 End LightConeReindexed.
+
+(* ================================================================ dropped gates in controlled_by form *)
+(* Base/SemCtrl.v: cembed n cs ts M = embed n (cs ++ ts) (ctrl_mat |cs| M) with ctrl_mat |cs| M =
+   diag(1, ..., 1, M), an isometry whenever M is.  Hence a gate in controlled_by form (C01: ctrl = true,
+   operator cembed) with an isometric matrix is an embedded isometry on controls ++ targets, and the
+   light-cone theorems above hold with the premise on the dropped gates reduced to "the gate's own
+   matrix is an isometry", whatever the form of the gate. *)
+From QV Require Import Base.SemCtrl.
+
+Section LightConeCtrl.
+  Context {T : Type} (K : ops T) (cj : T -> T).
+  Hypothesis HK : semiring K.
+  Hypothesis HC : conj_ok K cj.
+  Variable n : nat.
+  Variable mg : Trace.gate -> C01.Model.gate (T:=T).
+
+  Lemma ctrl_gate_embeds_unitary g cs ts M :
+    mg g = (true, cs, ts, M) -> gate_wf n (mg g) ->
+    wf_mat (length ts) M -> mmul K (madj K cj (length ts) M) M = eye K (2 ^ length ts) ->
+    embeds_unitary K cj n mg g.
+  Proof.
+    intros E Hw HM HU. rewrite E in Hw. destruct Hw as [Hc [Ht [Hlt Hd]]].
+    assert (Hn : NoDup (cs ++ ts)).
+    { apply NoDup_app_intro; auto. intros x Hx Hx'. exact (Hd x Hx' Hx). }
+    destruct (cembed_is_embedded_isometry K HK cj (cj_zero K cj HC) (cj_one K cj HC) n cs ts M Hn Hlt HM HU)
+      as [Eq [W I]].
+    exists (cs ++ ts), (ctrl_mat K (length cs) M). rewrite E. simpl.
+    split; [exact Eq|]. split; [exact Hn|]. split; [exact Hlt|]. split; [auto|]. split; [exact W|exact I].
+  Qed.
+
+  (* the gate's own matrix (2^|targets| for controlled_by form, 2^|qubits| otherwise) is well shaped and
+     an isometry; same predicate as C05/InstMat.gate_unitary *)
+  Definition gate_isometry (g : C01.Model.gate (T:=T)) : Prop :=
+    let '(ctrl, cs, ts, M) := g in
+    let k := if ctrl then length ts else length (cs ++ ts) in
+    wf_mat k M /\ mmul K (madj K cj k M) M = eye K (2 ^ k).
+
+  Lemma isometry_gate_embeds_unitary g : gate_wf n (mg g) -> gate_isometry (mg g) -> embeds_unitary K cj n mg g.
+  Proof.
+    intros Hw Hi. destruct (mg g) as [[[ctrl cs] ts] M] eqn:E. destruct ctrl; destruct Hi as [HM HU].
+    - apply (ctrl_gate_embeds_unitary g cs ts M); auto. now rewrite E.
+    - assert (L : length (isort cs ++ ts) = length (cs ++ ts)) by (now rewrite !app_length, isort_length).
+      apply (plain_gate_embeds_unitary K cj n mg g cs ts M); rewrite ?L; auto. now rewrite E.
+  Qed.
+
+  Lemma lc_dropped_sub c S g : In g (lc_dropped c S) -> In g c.
+  Proof.
+    intros Hg. eapply Permutation_in; [apply Permutation_sym, (lc_partition c S)|].
+    apply in_app_iff. now right.
+  Qed.
+
+  Lemma dropped_isometries_embed c S :
+    Forall (mvalid n mg gqs) c -> (forall g, In g (lc_dropped c S) -> gate_isometry (mg g)) ->
+    forall g, In g (lc_dropped c S) -> embeds_unitary K cj n mg g.
+  Proof.
+    intros Hv Hu g Hg. apply isometry_gate_embeds_unitary; auto.
+    rewrite Forall_forall in Hv. destruct (Hv g (lc_dropped_sub c S g Hg)) as [Hw _]. exact Hw.
+  Qed.
+
+  Theorem light_cone_reduced_ctrl_proof c S rho :
+    Forall (mvalid n mg gqs) c ->
+    (forall g, In g (lc_dropped c S) -> gate_isometry (mg g)) ->
+    (forall q, In q S -> q < n) -> wf_mat n rho ->
+    reduced K n S (trun (dact K cj n mg) c rho) = reduced K n S (trun (dact K cj n mg) (lc_kept c S) rho).
+  Proof.
+    intros Hv Hu. apply (light_cone_reduced_matrices_proof K cj HK n mg HC c S rho Hv).
+    now apply dropped_isometries_embed.
+  Qed.
+
+  Theorem light_cone_reindexed_ctrl_proof c S rho :
+    Forall (mvalid n mg gqs) c ->
+    (forall g, In g (lc_dropped c S) -> gate_isometry (mg g)) ->
+    (forall q, In q S -> q < n) -> (forall g q, In g c -> In q (gqs g) -> q < n) -> wf_mat n rho ->
+    let cone := lc_cone c S in
+    let kept' := map (fun g => relabel cone (mg g)) (lc_kept c S) in
+    let S' := map (fun q => C01.Model.index_of q cone) S in
+    reduced K n S (trun (dact K cj n mg) c rho)
+    = reduced K (length cone) S' (sandwich K cj (length cone) (circ_op K (length cone) kept') (reduced K n cone rho)).
+  Proof.
+    intros Hv Hu. apply (light_cone_reindexed_proof K cj HK HC n mg c S rho Hv).
+    now apply dropped_isometries_embed.
+  Qed.
+End LightConeCtrl.
